@@ -388,3 +388,66 @@ func (g *VGen) mutAt(t *ty.Ty, v *ty.Val, up func(*ty.Val) *ty.Val, emit func(*t
 		}
 	}
 }
+
+// EqVariants returns values structurally equal to v that differ in identity only: rebuilt at fresh
+// addresses, other spare capacity, reversed map insertion order, and signed zeros flipped.
+func (g *VGen) EqVariants(v *ty.Val) []*ty.Val {
+	out := []*ty.Val{g.Inst(v)}
+	var rew func(v *ty.Val, mode int) (*ty.Val, bool)
+	rew = func(v *ty.Val, mode int) (*ty.Val, bool) {
+		c := *v
+		changed := false
+		switch v.K {
+		case ty.VSlice:
+			if mode == 0 {
+				c.Spare = 3 - v.Spare
+				if c.Spare < 0 {
+					c.Spare = 0
+				}
+				changed = true
+			}
+		case ty.VMap:
+			if mode == 1 && len(v.Elems) >= 4 {
+				c.Elems = nil
+				for i := len(v.Elems) - 2; i >= 0; i -= 2 {
+					c.Elems = append(c.Elems, v.Elems[i], v.Elems[i+1])
+				}
+				changed = true
+				v = &ty.Val{Elems: c.Elems}
+			}
+		case ty.VFlt, ty.VCplx:
+			if mode == 2 {
+				sign := uint64(1) << uint(v.W-1)
+				if v.Bits&^sign == 0 {
+					c.Bits = v.Bits ^ sign
+					changed = true
+				}
+				if v.K == ty.VCplx && v.Bits2&^sign == 0 {
+					c.Bits2 = v.Bits2 ^ sign
+					changed = true
+				}
+			}
+		}
+		if v.Elems != nil {
+			src := v.Elems
+			c.Elems = make([]*ty.Val, len(src))
+			for i, e := range src {
+				// map keys stay as they are: flipping the sign of a zero key would make two keys collide
+				if c.K == ty.VMap && i%2 == 0 {
+					c.Elems[i] = e
+					continue
+				}
+				ne, ch := rew(e, mode)
+				c.Elems[i] = ne
+				changed = changed || ch
+			}
+		}
+		return &c, changed
+	}
+	for mode := 0; mode < 3; mode++ {
+		if nv, ch := rew(v, mode); ch {
+			out = append(out, g.Inst(nv))
+		}
+	}
+	return out
+}
